@@ -77,3 +77,53 @@ Theorem C03_heap_pop_returns_max :
   heap_ok le dflt data -> pop le dflt data = Some (top, rest) ->
   forall x, In x data -> le x top = true.
 Proof. exact pop_max. Qed.
+
+(** the contour stage ([connect_edges.rs]), every numeric instance, every store and event
+    vector whose result events are closed under the partner link ([closed]; [closed_of_links]
+    derives it from the link structure C13 states for the output of the sweep):
+    no access outside [result_events] / [iteration_map], and no loop of the stage can run for
+    ever once the bubble sort has returned and no result point is NaN. *)
+From Coq Require Import ZArith.
+From GB Require Import Connect ConnectProofs.
+Theorem C03_contour_stage_index_safe :
+  forall (N : Num) (cfg : config) (fuel : nat) (st : store N) (sorted_events : list eid),
+  closed N st (filter (in_result_filter st) sorted_events) ->
+  connect_edges cfg fuel st sorted_events <> Panic PIndexResultEvents.
+Proof. exact connect_edges_index_safe. Qed.
+
+Theorem C03_contour_stage_terminates :
+  forall (N : Num) (cfg : config) (fuel : nat) (st : store N) (sorted_events : list eid)
+         (st1 : store N) (res : list eid),
+  closed N st (filter (in_result_filter st) sorted_events) ->
+  order_events fuel st sorted_events = Ok (st1, res) ->
+  (forall e, In e res -> ident st1 e e = true) ->
+  connect_edges cfg fuel st sorted_events <> OutOfFuel.
+Proof. exact connect_edges_terminates. Qed.
+
+Theorem C03_next_pos_search_terminates :
+  forall (N : Num) (cfg : config) (st : store N) (data : list eid) (map : list nat) (pos : Z) (p : processed),
+  precompute_iteration_order cfg st data = Ok map ->
+  in_range pos (length map) = true ->
+  get_next_pos pos p map <> OutOfFuel.
+Proof. exact get_next_pos_terminates. Qed.
+
+Theorem C03_closed_from_links :
+  forall (N : Num) (st : store N) (l : list eid),
+  (forall i o, In i l -> e_left (getE st i) = true -> is_in_result (getE st i) = true ->
+               e_other (getE st i) = Some o ->
+               In o l /\ e_left (getE st o) = false /\ e_other (getE st o) = Some i) ->
+  closed N st (filter (in_result_filter st) l).
+Proof. exact closed_of_links. Qed.
+
+(** non-vacuity: on the output of the sweep for [F1_A], [F1_B] (exact instance) the result
+    events are closed under the partner link, the bubble sort returns and no point is NaN *)
+Theorem C03_contour_stage_example : connect_example_check = true.
+Proof. exact connect_example. Qed.
+
+(** [contours[*hole_id as usize]] (mod.rs) is never out of range: the panic site
+    [PIndexHoleIds] is unreachable for every instance, configuration, budget and input *)
+From GB Require Import GroupingProofs.
+Theorem C03_hole_index_safe :
+  forall (N : Num) (cfg : config) (fuel : nat) (A B : list (FillQueue.polygon N)) (op : operation),
+  boolean_operation cfg fuel A B op <> Panic PIndexHoleIds.
+Proof. exact boolean_operation_hole_index_safe. Qed.
